@@ -16,7 +16,11 @@ Spec:   spec/MofCompile.tla      requirement machine (Total, PositionInside,
         Session parts: A focus production among defect-free ones, B focus in
         an include file, C focus after an include, D nested compile (embedded
         value, scalar/array) followed by a defective production, E class
-        production followed by an instance of that class / of a subclass.
+        production followed by an instance of that class / of a subclass,
+        F class production that fails, then (good call, same compiler) valid
+        MOF depending on a class of that name which is on the search path,
+        G namespace entered by pragma (objects present, compiler caches not),
+        then any qualifier/class/instance production.
 Binding: every TLC-enumerated session selected for the tier is rendered by
         harness/mofgen.py to real MOF text / files and compiled by the real
         MOFCompiler (compile_string, compile_file; MOFWBEMConnection, a
@@ -57,6 +61,20 @@ LEGACY = [
     ("MofCompileImplLegacyEmb.cfg", "Reusable",
      "embedded_objects not reset in a finally clause: compiler unusable "
      "after a failed embedded compile", True),
+    ("MofCompileImplLegacyGuardKey.cfg", "ImplRefinesReq",
+     "include guard keyed by the path as spelled: a cycle through ./x.mof or "
+     "d/../x.mof is never recognised (RecursionError)", True),
+    ("MofCompileImplLegacyRegister.cfg", "Reusable",
+     "class name recorded as known before CreateClass succeeded: after a "
+     "failed compile, valid MOF depending on that name is rejected", True),
+    ("MofCompileImplLegacyNsCaches.cfg", "ImplRefinesReq",
+     "#pragma namespace creates only the qualifier cache: KeyError in the "
+     "dependency fix-up of p_mp_createClass", False),
+    ("MofCompileImplLegacyEmbNull.cfg", "ImplRefinesReq",
+     "dependency fix-up calls .lower() on a null EmbeddedInstance value: "
+     "AttributeError", False),
+    ("MofCompileImplLegacyOverflow.cfg", "ImplRefinesReq",
+     "OverflowError of the int -> float conversion not translated", False),
     ("MofCompileImplLegacyHex.cfg", "ImplRefinesReq",
      "_fixStringValue reads past the end of the string: IndexError", False),
     ("MofCompileImplLegacyCtx.cfg", "ImplRefinesReq",
@@ -84,6 +102,26 @@ NESTED = {("instance", "none", "emb_ok"), ("instance", "none", "emb_array_ok"),
           ("instance", "none", "emb_array_one")}
 OFPREV = ("instance", "none", "of_prev")
 SUBOFPREV = ("class", "none", "sub_of_prev")
+NSFULL = ("namespace", "none", "other_full")
+F_COMBOS = [("string", "mofwbem"), ("file", "mofwbem"), ("string", "faked"),
+            ("file", "faked"), ("string", "stub"), ("file", "stub")]
+# names of the parameter values of spec/MofCompile.tla
+SIB = {1: "emb_null", 2: "emb_self", 3: "ref_self", 4: "param_unknown",
+       5: "param_emb_null", 6: "emb_nonstring"}
+SPELL = {1: "dot", 2: "updown", 3: "parent"}
+NAMESPELL = {0: "declared", 1: "lower", 2: "upper"}
+
+
+def pname(p):
+    """k.d.v of a production, with the name of its parameter where the
+    parameter selects a variant (sibling shape, path spelling)."""
+    s = "%s.%s.%s" % pkey(p)
+    if p["k"] == "class" and p["d"] == "dependency" and p["a"] in SIB:
+        s += "/" + SIB[p["a"]]
+    if p["k"] == "include" and p["d"] in ("none", "dependency") and \
+            p["a"] in SPELL:
+        s += "/" + SPELL[p["a"]]
+    return s
 
 
 def pkey(p):
@@ -94,6 +132,10 @@ def part_of(ses):
     """"D1"/"D2"/"E2"/"E3" for the sessions of SessionsD/SessionsE, else None.
     Returns (part, helper production, focus production)."""
     m, i = ses["main"], ses["inc"]
+    if ses.get("good"):
+        return "F", ses["good"][0], m[0]
+    if len(m) == 2 and not i and pkey(m[0]) == NSFULL:
+        return "G", m[0], m[1]
     if len(m) == 2 and not i and pkey(m[0]) in NESTED and \
             m[1]["d"] in ("lex", "syntax", "value", "dependency"):
         return "D1", m[0], m[1]
@@ -120,17 +162,21 @@ def focus_of(ses):
 
 def focus_name(ses):
     part = part_of(ses)
+    if part and part[0] == "F":
+        _, h, f = part
+        return "%s>%s.%s/%s" % (pname(f), h["k"], h["v"], NAMESPELL[h["a"]])
+    if part and part[0] == "G":
+        return "namespace.other_full>" + pname(part[2])
     if part:
         _, h, f = part
-        one, two = "%s.%s.%s" % pkey(f), "%s.%s" % (h["k"], h["v"])
+        one, two = pname(f), "%s.%s" % (h["k"], h["v"])
         if part[0] == "E3":
             two = "class.sub_of_prev>" + two
         return one + ">" + two if part[0][0] == "E" else two + ">" + one
     nf = [p for p in ses["main"] + ses["inc"] if pkey(p) not in PLAIN]
     if len(nf) > 1:
         return "multi"
-    p = focus_of(ses)
-    return "%s.%s.%s" % (p["k"], p["d"], p["v"])
+    return pname(focus_of(ses))
 
 
 def shape_of(ses):
@@ -236,6 +282,44 @@ def select(ctx, sessions, quick):
                 if not quick:
                     add(s, *COMBOS[2 + n_e % 3])
                 n_e += 1
+    # ---- part F: a class production that fails, then (good call) a valid
+    # production depending on a class of that name.  Never on mockapi (a new
+    # compiler object per call).  quick: for the dependency defects every use
+    # that makes the compiler look the class up in its list of known classes
+    # x every spelling, the other uses with one spelling; sibling-shape and
+    # value defects with a sample; thorough: all
+    n_f = 0
+    groups = {}
+    for s, h, f in parts.get("F", []):
+        groups.setdefault((pkey(f), f["a"]), []).append((s, h))
+    for g in sorted(groups):
+        cands = sorted(groups[g], key=lambda c: (c[1]["v"], c[1]["a"]))
+        if quick:
+            if g[0][1] == "dependency" and g[1] == 0:
+                keep = [c for c in cands if c[1]["v"] in
+                        ("ref_failed", "emb_failed", "param_failed")]
+                for u in ("sub_failed", "of_failed"):
+                    keep.append(rng.choice([c for c in cands
+                                            if c[1]["v"] == u]))
+                cands = keep
+            else:
+                cands = rng.sample(cands, 2 if g[0][1] == "dependency" else 1)
+        for s, h in cands:
+            add(s, *F_COMBOS[n_f % len(F_COMBOS)])
+            n_f += 1
+    # ---- part G: the namespace pragma other_full, then a production.
+    # quick: every dependency defect and valid variant, a third of the value
+    # defects; thorough: all, on two api/handle pairs
+    n_g = 0
+    for s, h, f in sorted(parts.get("G", []),
+                          key=lambda x: (pkey(x[2]), x[2]["a"])):
+        if quick and f["d"] == "value" and rng.random() > 0.34 and \
+                f["v"] != "real_huge_int":
+            continue
+        add(s, *COMBOS[n_g % len(COMBOS)])
+        if not quick:
+            add(s, *COMBOS[(n_g + 2) % len(COMBOS)])
+        n_g += 1
     return jobs
 
 
@@ -274,7 +358,8 @@ def random_sessions(rng, focus, n):
             main = main[:4] if any(p["v"] == "inc2" and p["k"] == "include"
                                    for p in main[:4]) else main
         api, handle = rng.choice(STUB_COMBOS if use_stub else COMBOS)
-        out.append(dict(main=main, inc=inc, api=api, handle=handle))
+        out.append(dict(main=main, inc=inc, good=[], api=api,
+                        handle=handle))
     return out
 
 
@@ -385,8 +470,17 @@ def signature(ses, ev, clauses):
         if ev["out"] == "RecursionError":
             f = focus_of(ses)
             site = focus_name(ses) if part_of(ses) else \
-                "%s.%s" % (f["k"], f["v"]) if focus_name(ses) != "multi" \
-                else "recursion"
+                "%s.%s%s" % (f["k"], f["v"],
+                             "/" + SPELL[f["a"]] if f["k"] == "include" and
+                             f["a"] in SPELL else "") \
+                if focus_name(ses) != "multi" else "recursion"
+        else:
+            # a production whose parameter selects a variant (sibling shape,
+            # path spelling) names the variant
+            part = part_of(ses)
+            f = part[2] if part and part[0] in ("F", "G") else focus_of(ses)
+            if focus_name(ses) != "multi" and "/" in pname(f):
+                site += "/" + pname(f).split("/", 1)[1]
         return "%s:Total.NoOtherException:%s@%s" % (ev["call"], ev["out"],
                                                     site)
     return "%s:%s:%s:%s" % (ev["call"], cl, focus_name(ses), ev["out"])
@@ -428,7 +522,8 @@ def judge(ctx, runs, label):
                    {"ses": r["ses"], "seed": r["seed"],
                     "failing_event": {k: ev[k] for k in ev if k != "ses"},
                     "clauses": cl, "text": info.get("text"),
-                    "inc": info.get("inc"), "rules": info.get("rules")})
+                    "inc": info.get("inc"), "rules": info.get("rules"),
+                    "good_text": info.get("good_text")})
     return verdicts
 
 
@@ -579,8 +674,8 @@ def run(ctx):
             break
         if r_["events"][-1]["call"] == "good" and shown % 2 == 0 or \
                 len(r_["ses"]["inc"]) > 0:
-            ctx.sample({"session": {k: r_["ses"][k] for k in
-                                    ("main", "inc", "api", "handle")},
+            ctx.sample({"session": {k: r_["ses"].get(k) for k in
+                                    ("main", "inc", "good", "api", "handle")},
                         "mof": (r_["info"] or {}).get("text", "")[:200],
                         "events": [{k: e[k] for k in
                                     ("call", "out", "lineno", "column",
